@@ -62,6 +62,10 @@ def run(ctx):
     src_obs, src_info = srctie.obligations(ctx, "callback", "C10")
     rep.add_obligations(src_obs)
     rep.extra["source_tie"] = src_info
+    # source tie, send side: AsyncKicker.kiq re-translated from the source text; srcproofs/Src_kiq_C10.v re-checked
+    kiq_obs, kiq_info = srctie.obligations(ctx, "kiq", "C10")
+    rep.add_obligations(kiq_obs)
+    rep.extra["source_tie_kiq"] = kiq_info
     corpus = L.load_corpus_cases("C10")
     L.explore(ctx, rep, "C10", [c for c in corpus if c["type"] == "recv"], "corpus-recv", ORACLES, nontrivial)
     L.explore(ctx, rep, "C10", [c for c in corpus if c["type"] == "send"], "corpus-send", ORACLES, nontrivial)
